@@ -200,11 +200,12 @@ class DeclWorld:
         o.f[('u', 'func', 'isvararg')] = 0; o.f[('u', 'func', 'params')] = first; o.f[('u', 'func', 'nparam')] = len(params)
         return ft
 
-    def block(self):
+    def block(self, parent=None):
         self.nblocks += 1
         s = Obj('blockscope%d' % self.nblocks, 'heap')
-        s.f[('parent',)] = self.filescope
-        return Ptr(s, ())
+        s.f[('parent',)] = parent or self.filescope
+        self.last = Ptr(s, ())
+        return self.last
 
 
 def decl_models(prog, dw_holder):
@@ -327,6 +328,8 @@ def run_history(prog, models, hist, decl_fn, flush_fn):
             n0 = len(it.events)
             if d.scope == 'file':
                 s = dw.filescope; f = None
+            elif d.scope == 'inner':         # a block nested in the block of the previous block-scope declaration
+                s = dw.block(parent=dw.last); f = Ptr(Obj('curfunc', 'heap'), ())
             else:
                 s = dw.block(); f = Ptr(Obj('curfunc', 'heap'), ())
             dw.tokobj.f[('kind',)] = ev(prog, 'TLBRACE') if (d.kind == 'func' and d.init) else ev(prog, 'TSEMICOLON')
@@ -671,6 +674,26 @@ def rule_redecl_types(chk, prog, tier):
     r.exhaustive = True
 
 
+def rule_extern_hidden(chk, prog, tier):
+    r = chk.rule('C09.h', 'a block-scope `extern` declaration (or function declaration) where the visible prior declaration has NO linkage - a local variable of an enclosing block hides the file-scope one - has external linkage and names the '
+                 'global symbol (6.2.2p4: "if the prior declaration specifies no linkage, then the identifier has external linkage")', floor=6, oracle='C11 6.2.2p4')
+    models = decl_models(prog, None)
+    decl_fn = prog.require_func('decl', 'decl.c'); flush_fn = prog.require_func('emittentativedefns', 'decl.c')
+    for filedecl in (None, D('obj', 'file', ()), D('obj', 'file', ('extern',))):
+        for outer in (D('obj', 'block', ()), D('obj', 'block', ('static',))):
+            for inner in (D('obj', 'inner', ('extern',)), ):
+                hist = ([filedecl] if filedecl else []) + [outer, inner]
+                key = 'extern-hidden:%s{ %s x; { extern int x; } }' % ('%s int x; ' % (' '.join(filedecl.sc) or '') if filedecl else '', ' '.join(outer.sc) or 'auto')
+                try:
+                    steps, final, ik = run_history(prog, models, hist, decl_fn, flush_fn)
+                except AnalysisBroken as x:
+                    r.instance(False, key, 'decl.c:getlinkage', 'analysis of the history failed: %s' % str(x)[-200:]); continue
+                res, evs, bind = steps[-1]
+                ok = res == 'ok' and bind is not None and bind['linkage'] == 'ext' and bind['storage'] == 'static' and bind['sym'] is not None and bind['sym'][0] == 'x' and bind['sym'][1] == 'plain'
+                r.instance(ok, key, 'decl.c:getlinkage', 'the inner declaration must be bound with external linkage to the symbol x; cproc: %s %s' % (res, bind))
+    r.exhaustive = False
+
+
 def rule_typedef_function(chk, prog, tier):
     r = chk.rule('C09.g', 'a function may be declared, but not defined, through a typedef name of function type: `typedef int F(void); F f;` declares f, `F f { ... }` is diagnosed (and never trips an internal assertion)', floor=4,
                  oracle='C11 6.9.1p2')
@@ -698,5 +721,6 @@ def run(chk, tier):
     chk.guard('C09.c', lambda: rule_naming(chk, prog, tier))
     chk.guard('C09.d', lambda: rule_flush(chk, prog, tier))
     chk.guard('C09.e', lambda: rule_flush_all(chk, prog, tier))
+    chk.guard('C09.h', lambda: rule_extern_hidden(chk, prog, tier))
     chk.guard('C09.f', lambda: rule_redecl_types(chk, prog, tier))
     chk.guard('C09.g', lambda: rule_typedef_function(chk, prog, tier))
